@@ -134,3 +134,15 @@ CHECKS["C06"] = dict(
          "assembled; two accepted values that are not the signed/unsigned spellings of one field value must produce different bytes.",
     note="Nothing is asserted about which values must be accepted; the boundary set is closed under truncation to any width, so a value wrapped or "
          "masked into a field collides with its in-range residue.")
+
+CHECKS["C02"] = dict(
+    level="model_checking", design_ref="DESIGN.md 4/C02",
+    technique="exhaustive enumeration of (cpu, instruction template, numeric slot) x reference kind (literal, backward/forward label small/large, equ, "
+              ".define, .set) x -optimize through the real two-pass flow; invariant oracle: pass-1 label address = pass-2 placement of the marker that follows it",
+    text="For every instruction template of every CPU (comparison corpus as input; decoder-derived shapes for CPUs without one) and every numeric "
+         "slot, the operand is replaced by each of ten reference kinds (small/large literal, backward label small/large, forward label that turns out "
+         "small/large, equ small/large, .define, .set), with and without -optimize, and in the thorough tier followed by a second variable instruction "
+         "for nine ordered pairs of kinds; each label is followed by a unique marker, and the address recorded for the label in pass 1 (the symbol "
+         "table is locked in pass 2) must be the address at which the marker is placed in the pass-2 image.",
+    note="Library seam (probe/asmprobe.cpp mirrors main()'s flow); the precondition of the property (no conditional or macro depending on later "
+         "symbols) holds by construction; rejected programs are counted, not judged.")
